@@ -1,4 +1,4 @@
-import AranyaV.Proofs.CompileStruct
+import AranyaV.Proofs.CompileMatch
 /-!
 C22: the code-at-pc simulation, by induction on the evaluator's fuel.
 -/
@@ -7,7 +7,7 @@ open AranyaV.Gen.Lang
 variable (S : Sim)
 
 theorem exprSim_succ {n : Nat} (hP : ProgOk S) (ihE : ExprSim S n) (ihA : ArgsSim S n) (ihSs : StmtsSim S n)
-    (ihB : BodySim S n) (ihF : FieldsSim S n) : ExprSim S (n + 1) := by
+    (ihB : BodySim S n) (ihF : FieldsSim S n) (ihSel : SelectSim S n) : ExprSim S (n + 1) := by
   intro e env log wp c junk base fr K hsup hcode hdefs
   cases e with
   | unit =>
@@ -342,6 +342,7 @@ theorem exprSim_succ {n : Nat} (hP : ProgOk S) (ihE : ExprSim S n) (ihA : ArgsSi
     | false => exact sim_call S hP ihA ihB f args hb env log wp c junk base fr K hsup hcode hdefs
   | ffi mname fname ids args => exact sim_ffi S hP ihA mname fname ids args env log wp c junk base fr K hsup hcode hdefs
   | struct name fields srcs => exact sim_struct S ihF name fields srcs env log wp c junk base fr K hsup hcode hdefs
+  | mtch scrut arms => exact sim_match S ihE ihSel scrut arms env log wp c junk base fr K hsup hcode hdefs
   | block ss e => exact sim_block S ihE ihSs ss e env log wp c junk base fr K hsup hcode hdefs
   | _ => simp [supE] at hsup
 
@@ -349,14 +350,16 @@ theorem sim_all (hP : ProgOk S) : ∀ n, AllSim S n
   | 0 => sim_zero S
   | n + 1 =>
     let ih := sim_all hP n
-    { e := exprSim_succ S hP ih.e ih.a ih.ss ih.body ih.fl
+    { e := exprSim_succ S hP ih.e ih.a ih.ss ih.body ih.fl ih.sel
       a := argsSim_succ S ih.e ih.a
       ss := stmtsSim_succ S ih.s ih.ss
-      s := stmtSim_succ S ih.e ih.br
+      s := stmtSim_succ S ih.e ih.br (sim_matchS S ih.e ih.ss ih.sel)
       sc := scopedSim_succ S ih.ss
       br := branchesSim_succ S ih.e ih.sc ih.br
       body := bodySim_succ S hP ih.ss
-      fl := fieldsSim_succ S ih.e ih.fl }
+      fl := fieldsSim_succ S ih.e ih.fl
+      pv := patValsSim_succ S ih.e ih.pv
+      sel := selectSim_succ S ih.pv ih.sel }
 
 /-- Function level: running `f` from the harness's initial state. -/
 theorem fun_sim (hP : ProgOk S) (n f : Nat) (args : List Val) (entry : Nat)
